@@ -279,7 +279,7 @@ func (g *qGen) subSrc(w *qWorld) qSrc {
 	w.alias++
 	a := fmt.Sprintf("s%d", w.alias)
 	var items, citems, names []string
-	pure := g.r.Intn(2) == 0
+	pure := g.r.Intn(2) == 0 || (len(w.ctes) > 0 && g.r.Intn(2) == 0)
 	for i := 0; i < n; i++ {
 		e := g.scalar(cols, 1)
 		if pure {
@@ -305,7 +305,9 @@ var qJoinKinds = [][3]string{{"CROSS JOIN", "JCross", ""}, {"INNER JOIN", "JInne
 
 func (g *qGen) source(w *qWorld, depth int) qSrc {
 	if depth <= 0 || g.r.Intn(3) == 0 {
-		if g.r.Intn(5) == 0 {
+		// with a CTE in scope derived tables are frequent: a projecting reference next to a plain reference
+		// of the same CTE is what shows records shared between references (seeded change C03-A)
+		if g.r.Intn(5) == 0 || (len(w.ctes) > 0 && g.r.Intn(3) == 0) {
 			return g.subSrc(w)
 		}
 		return g.tableSrc(w)
